@@ -185,7 +185,7 @@ def match_known(pid, suite_name, case, obs, clauses, known):
             if k["status"] != "known" or k["property"] != pid or k["clause"] != tag:
                 continue
             pred = getattr(findings, "sig_" + k["id"], None)
-            if pred and pred(suite_name, case, obs):
+            if pred and pred(suite_name, case, obs, clause):
                 hit = k["id"]
                 break
         out.append(hit)
